@@ -256,7 +256,17 @@ func checkC18(r *mon.Run) {
 		for _, n := range st.nums {
 			bo = append(bo, byte(n), byte(n>>8))
 			// every entry describes itself, so a lookup that lands on another variable is noticed
-			own, _ := refdev.LoadOption{Attributes: 1, Description: bootName(n)}.Encode()
+			lo := refdev.LoadOption{Attributes: 1, Description: bootName(n)}
+			switch n % 4 {
+			case 1: // optional data behind the path list (loader arguments), as firmware and boot managers store
+				lo.Optional = []byte("\x00W\x00I\x00N\x00D\x00O\x00W\x00S\x00")[:1+n%13]
+			case 2:
+				lo.Nodes = []refdev.Node{{Kind: "file", Path: "\\EFI\\BOOT\\BOOTX64.EFI"}}
+				lo.Optional = bytes.Repeat([]byte{byte(n)}, 1+n%40)
+			case 3:
+				lo.Nodes = []refdev.Node{{Kind: "pci", Function: byte(n), Device: byte(n >> 8)}, {Kind: "file", Path: "\\x"}}
+			}
+			own, _ := lo.Encode()
 			files[varPath(bootName(n), globalGUID)] = withAttrs(7, own)
 		}
 		files[varPath("BootOrder", globalGUID)] = withAttrs(7, bo)
